@@ -398,6 +398,37 @@ def main():
                             "max_entries": a.get("max_entries", 0), "map_flags": a.get("map_flags", 0),
                             "pinning": a.get("pinning", 0), "keyType": mp["keyType"], "valType": mp["valType"]})
     out["globals"] = [{"name": g["name"], "ctype": g["ctype"], "size": V(g["i_size"])} for g in globs]
+    # ---- the build-time override of MAX_MATCH_SET_LEN (Makefile: -DMAX_MATCH_SET_LEN=$(X) for C and
+    # -X …consts.MaxMatchSetLen_=$(X) for Go): the C program's dependent sizes for one non-default value
+    ov = []
+    probe2 = os.path.join(outdir, "c19_probe_override.c")
+    with open(probe2, "w") as fh:
+        fh.write('#include "%s"\n' % src)
+        fh.write("const long long c19_override_table[5] = { (long long)(MAX_MATCH_SET_LEN), (long long)(sizeof(((struct domain_routing *)0)->bitmap) / sizeof(__u32)),\n"
+                 "  (long long)(sizeof(*routing_map.max_entries) / sizeof(int)), (long long)(sizeof(*lpm_array_map.max_entries) / sizeof(int)), (long long)(MAX_LPM_NUM) };\n")
+    p2 = subprocess.run(clang_base(verif, "bpf") + ["-DMAX_MATCH_SET_LEN=2048", "-O0", "-S", "-emit-llvm", "-o", "-", "-x", "c", probe2],
+                        stdout=subprocess.PIPE, stderr=subprocess.PIPE)
+    if p2.returncode == 0:
+        m2 = re.search(r"@c19_override_table = .*?\[(.*?)\], align", p2.stdout.decode(), re.S)
+        if m2:
+            ov = [int(x) for x in re.findall(r"i64 (-?\d+)", m2.group(1))]
+    mk = {"default": -1, "to_c": 0, "to_go": 0}
+    mkpath = os.path.join(repo, "Makefile")
+    if os.path.exists(mkpath):
+        mt = open(mkpath, encoding="utf-8", errors="replace").read()
+        mm3 = re.search(r"^MAX_MATCH_SET_LEN\s*\?=\s*(\d+)\s*$", mt, re.M)
+        if mm3:
+            mk["default"] = int(mm3.group(1))
+        mk["to_c"] = 1 if re.search(r"-DMAX_MATCH_SET_LEN=\$\(MAX_MATCH_SET_LEN\)", mt) else 0
+        mk["to_go"] = 1 if re.search(r"-X\s+\S*common/consts\.MaxMatchSetLen_=\$\(MAX_MATCH_SET_LEN\)", mt) else 0
+    out["override2048"] = ov
+    out["makefile"] = mk
+    # section of every SEC("…") function, from the source text (clang's JSON omits the attribute's string)
+    text = strip_comments(open(src, encoding="utf-8", errors="replace").read())
+    secs = {}
+    for mm2 in re.finditer(r'SEC\("([^"]+)"\)\s*(?:static\s+)?(?:__\w+\s+)*int\s+(\w+)\s*\(', text):
+        secs[mm2.group(2)] = mm2.group(1)
+    out["prog_sections"] = [{"name": p, "section": secs.get(p, ""), "kind": secs.get(p, "").split("/")[0]} for p in model.progs]
     json.dump(out, open(os.path.join(outdir, "c19_c.json"), "w"), indent=1)
 
     # ---- Lean
@@ -422,6 +453,12 @@ def main():
             lean_name(rec_of(mp["valType"]))) for mp in out["maps"]))
         fh.write("]\n\n")
         fh.write("def cProgs : List Name := [%s]\n\n" % ", ".join(lean_name(p) for p in out["progs"]))
+        fh.write("/-- (program, full section name, section kind = the part before `/`) -/\n")
+        fh.write("def cProgSections : List (Name × Name × Name) := [%s]\n\n" % ", ".join(
+            "(%s, %s, %s)" % (lean_name(p["name"]), lean_name(p["section"]), lean_name(p["kind"])) for p in out["prog_sections"]))
+        fh.write("/-- (map, map_flags, pinning) -/\n")
+        fh.write("def cMapAttrs : List (Name × Nat × Nat) := [%s]\n\n" % ", ".join(
+            "(%s, %d, %d)" % (lean_name(mp["name"]), mp["map_flags"], mp["pinning"]) for mp in out["maps"]))
         fh.write("def cGlobals : List (Name × String × Nat) := [%s]\n\n" % ", ".join(
             "(%s, %s, %d)" % (lean_name(g["name"]), lean_str(g["ctype"]), g["size"]) for g in out["globals"]))
         fh.write("end DaeVerif.C19.Gen\n")
@@ -442,7 +479,13 @@ def main():
         fh.write("def cEnums : List (Name × Nat × List Name) := [\n")
         fh.write(",\n".join("  (%s, %d, [%s])" % (lean_name(e["name"]), e["size"], ", ".join(lean_name(c["name"]) for c in e["consts"]))
                             for e in out["enums"]))
-        fh.write("]\n\nend DaeVerif.C19.Gen\n")
+        fh.write("]\n\n/-- the C program compiled with -DMAX_MATCH_SET_LEN=2048: [MAX_MATCH_SET_LEN, domain_routing.bitmap words, routing_map max_entries, lpm_array_map max_entries, MAX_LPM_NUM] -/\n")
+        fh.write("def cOverride2048 : List Nat := [%s]\n\n" % ", ".join(str(x) for x in out["override2048"]))
+        fh.write("/-- Makefile: default of MAX_MATCH_SET_LEN (or none), passes $(MAX_MATCH_SET_LEN) to the C compiler, passes it to the Go linker -/\n")
+        fh.write("def makefileMaxMatchSetLen : Option Nat × Bool × Bool := (%s, %s, %s)\n" % (
+            "some %d" % out["makefile"]["default"] if out["makefile"]["default"] >= 0 else "none",
+            "true" if out["makefile"]["to_c"] else "false", "true" if out["makefile"]["to_go"] else "false"))
+        fh.write("\nend DaeVerif.C19.Gen\n")
     print("c19 gen_c: %d records, %d maps, %d enums, %d macros (%d skipped), %d programs, %d probe values" % (
         len(out["records"]), len(out["maps"]), len(out["enums"]), len(out["macros"]), len(macros_skipped),
         len(out["progs"]), len(vals)))
